@@ -144,10 +144,23 @@ Section Sources.
 
   (* per-year files: year -> records (day-of-year column, values); absent = no such file *)
   Definition files := list (Z * list (Z * wrec T)).
+  (* the file of a year is found by its NAME: path.go yearToExtension(J), J = year - 1900:
+     J < 100 -> "9" ++ decimal J;  J >= 100 -> "0" ++ second and third digit of decimal J.  So the
+     years 2003, 2103, 2203 share the extension "003": when the year counter runs away (F9: short
+     JTAG, roll-over every few days) the run re-opens the files of the real years under later year
+     numbers.  [ext_key] = an injective code of that extension. *)
+  Definition ext_key (year : Z) : Z :=
+    let j := year - 1900 in
+    if j <? 100 then j
+    else if j <? 1000 then 100 + j mod 100
+    else if j <? 10000 then 100 + (j / 10) mod 100
+    else if j <? 100000 then 100 + (j / 100) mod 100
+    else 100 + (j / 1000) mod 100.
+
   Fixpoint file_of (fs : files) (year : Z) : option (list (Z * wrec T)) :=
     match fs with
     | [] => None
-    | (y, recs) :: rest => if y =? year then Some recs else file_of rest year
+    | (y, recs) :: rest => if ext_key y =? ext_key year then Some recs else file_of rest year
     end.
 
   Definition reload_year (none : T) (corr : list T) (src : store T * files) (year : Z)
